@@ -172,6 +172,12 @@ def run(tier, only=None):
         R.add_tlc(res)
     n = 24 if tier == "quick" else 240
     sample, cov = config.covering_sample(adm, rng, n)
+    # ... plus aerodynamic models with three and four lifting surfaces of different sizes (with and without rotation rates)
+    multi = [a for a in adm if a["kind"] == "aero" and a["two"]]
+    for j, rot in enumerate((True, False, True, False)[: (2 if tier == "quick" else 4)]):
+        pick = [a for a in multi if bool(a.get("rotational")) == rot]
+        if pick:
+            sample.append(dict(pick[int(rng.integers(0, len(pick)))], extra_surfaces=1 + j % 2 if tier != "quick" else 1 + j))
     classes = set()
     tot = {"blocks": 0, "entries": 0, "cs_entries": 0, "undecidable": 0, "skipped_blocks": 0}
     for r in check_exc(pmap(_model_job, [(c, i) for i, c in enumerate(sample)])):
